@@ -2,9 +2,19 @@
 """Prints the prompt for a seeded-breakage sub-agent for property <ID> (only the property text is given)."""
 import json, sys
 pid = sys.argv[1]
+rnd = sys.argv[2] if len(sys.argv) > 2 else ""
 p = [json.loads(l) for l in open('/verif/properties.jsonl') if json.loads(l)['id'] == pid][0]
-wt = "/tmp/seed/%s" % pid
-out = "/tmp/seed/%s.out" % pid
+wt = "/tmp/seed/%s%s" % (pid, rnd)
+out = "/tmp/seed/%s%s.out" % (pid, rnd)
+avoid = ""
+if rnd:
+    import glob, os
+    prev = []
+    for d in sorted(glob.glob('/verif/seeded/%s[a-z]' % pid)):
+        try: prev.append("- " + json.load(open(os.path.join(d, 'meta.json')))['summary'][:300])
+        except Exception: pass
+    if prev:
+        avoid = "\n\nEarlier developers already tried the following changes; yours must use DIFFERENT mechanisms and code locations, and exercise a different part of the property's statement:\n" + "\n".join(prev)
 print(f"""You are helping to evaluate a verification effort for the Go project google/starlark-go (a Starlark interpreter). Your job: act as a developer who introduces a subtle, realistic BUG that breaks ONE stated semantic property of the project, while the code still compiles and the project's existing test suite still passes. You will produce TWO different such bugs (call them a and b), each in a different mechanism/location.
 
 Work ONLY inside your own scratch git worktree {wt} (a checkout of the project; create nothing elsewhere except your output directory {out}). Do NOT read or list anything under /verif or /root/.vp, and do not touch /repo. No network. Every shell call must first run: export GOFLAGS=-mod=mod GOPROXY=off   (and must NOT set GOTOOLCHAIN or GOSUMDB).
@@ -25,4 +35,4 @@ Deliverables, for bug a and bug b, written to {out}/a/ and {out}/b/:
 - patch.diff  : `git diff` of the source change ONLY (not the demo), applicable with `git apply` to the worktree's base commit;
 - the demo file(s), plus a file demo_cmd.txt with the exact command that runs the demo from the worktree root (e.g. `go test ./starlark -run TestSeedDemo`), and where the demo file must be placed;
 - meta.json : {{"property": "{pid}", "summary": "...what the change does...", "needs": "...what specific condition makes it manifest...", "why_tests_pass": "...", "files": [...]}}.
-Leave the worktree clean (git checkout . ; remove untracked demo files) when you finish. Reply with a short summary of both bugs and the commands you ran to verify requirements 2-4.""")
+Leave the worktree clean (git checkout . ; remove untracked demo files) when you finish. Reply with a short summary of both bugs and the commands you ran to verify requirements 2-4.""" + avoid)
